@@ -1,9 +1,10 @@
 """C16 - print/println/format strings and string interpolation render values exactly.
 
-Theorems: coq/C16/Properties_C16.v (decimal/hex/octal/binary round trips for every integer, canonical
+Theorems: coq/C16/Properties_C16.v, Properties_C16_contexts.v (decimal/hex/octal/binary round trips for every integer, canonical
 form, pad length, sign-first zero padding of printf, %% literal, the interpolation splitter partitions
 the literal for every byte string, {{ }} literal, single-space joining, output in order up to an error
-exit; two laws refuted on the faithful model = known findings; three former findings repaired in /repo and proved).
+exit; rendering inside rendering; scopes, loops, deferred statements, copies of a literal's AST; two laws refuted on the
+faithful model = known findings; three former findings repaired in /repo and proved).
 Tie: generated Cb programs (declarations + print/println statements + optionally a failing statement)
 are run on /repo's binary; the extracted model (bin/c16_model) is given the same statements; stdout
 bytes are compared.  Independently every statement carries the output the property's own reading
@@ -37,15 +38,24 @@ META = {
             "among several arguments; only an odd run of backslashes hides a directive. Two laws are refuted on the "
             "faithful model (known findings: %c of a 0 byte prints the decimal number, escapes are processed after "
             "substitution); three former findings are repaired in /repo (4cd822e, 033c981, 475de81) and now proved. "
+            "Rendering inside rendering and in every code position: the print path re-entered from functions called inside "
+            "{..} / print / printf arguments (Nested.v), and inside scopes - blocks, if/else, loop iterations, switch cases, match arms, "
+            "deferred statements (Contexts.v: a scope writes its statements' output in order, then its deferred statements' output in "
+            "reverse; a loop writes the concatenation of its iterations, the n-th like the first; a statement renders inside a scope as "
+            "outside; a deep copy of a literal's AST renders like the literal). "
             "On every run the extracted model and /repo's binary are run on "
             "the same generated programs (values at and around every power of two and integer type limit through every "
-            "converter, widths 0-20, arities 1-6, ASCII/UTF-8/raw high bytes, programs that fail after printing) and "
+            "converter, widths 0-20, arities 1-6, ASCII/UTF-8/raw high bytes, programs that fail after printing; every rendering form "
+            "placed in plain / generic (explicit and inferred type arguments) / async / default-parameter / imported-module functions, "
+            "lambdas, struct and generic-struct methods, loops, branches, match arms, defer, macros, global initialisers) and "
             "stdout bytes are compared; the output demanded by the property's own reading is compared as well.",
     "note": "Trusted: Coq kernel (vm_compute for the refutation witnesses and a 16-digit table), no axioms "
             "(Print Assumptions: closed); extraction via ExtrOcamlBasic+ExtrOcamlString; the model is hand-written and "
-            "tied to the code by differential testing only. Outside the model: floating point (%f, :.Nf), %p, printf "
-            "precision and the flags + space #, values of type char/bool/struct/array/pointer, widths above ~10^3; "
-            "expressions inside {...} are evaluated by the harness (small core-grammar expressions), not by the model.",
+            "tied to the code by differential testing only. Outside the model: %f, %p, printf "
+            "precision and the flags + space #, values of type char/bool/struct/array/pointer, widths above ~10^3 "
+            "({x:[0][W].Nf} of doubles is modelled: FloatFmt.v); "
+            "expressions inside {...} and control-flow conditions are evaluated by the harness, not by the model; function kinds "
+            "(generic, async, lambda, module, default parameters, methods) exist in the generated source only.",
 }
 
 I64MIN, I64MAX = -2 ** 63, 2 ** 63 - 1
@@ -713,13 +723,23 @@ def boundary_programs(seed, tier):
 # independent evaluator over the same instances (oracle_*), from the generator's own record of the pieces
 # ("parts" / "fparts") - it never splits a literal itself.
 MAGIC = 4242          # hf(k) / sf_*(k) raise their error when k == MAGIC
+CTX_ON = True         # code positions: function flavours, control-flow scopes, defer, expression spellings
 
 
 class FDef:
-    def __init__(self, name, rtype, params, level, struct=None):
+    """a function template.  flavor: how the function is defined and called (the rendering code is the same, the way the
+    body's AST comes into being and is reached differs):
+      plain    RT f(..)                         generic   RT f<T>(T tg, ..) called f<int>(..) / f<string>(..) / f<long>(..) /
+      async    async RT f(..), called await f(..)          f<T>(tg, ..) from another generic (explicit: the body is a clone
+      default  trailing parameters with default values     made by clone_ast_node) or f(..) (inferred)
+      module   export RT f(..) in an imported file         lambda    RT f = RT func(..) {..}; in main
+    struct: None, "P" (impl Sh for P) or "B" (impl Gt<T> for Box<T>: instantiate_generic_impl per Box<int> / Box<string>)"""
+    def __init__(self, name, rtype, params, level, struct=None, flavor="plain"):
         self.name, self.rtype, self.params, self.level, self.struct = name, rtype, params, level, struct
         self.body, self.ret = [], None
         self.special = None
+        self.flavor = flavor
+        self.defaults = {}       # parameter name -> default value expression (trailing parameters only)
 
 
 def x_src(t):
@@ -731,12 +751,27 @@ def x_src(t):
     if k == "flit":
         return t[1]
     if k == "call":
-        return "%s(%s)" % (t[1].name, ", ".join(x_src(a) for a in t[2]))
+        site = t[3] if len(t) > 3 else {}
+        args = t[2][:len(t[2]) - site.get("omit", 0)]
+        return "%s%s%s(%s)" % (site.get("pre", ""), t[1].name, site.get("targs", ""), ", ".join(x_src(a) for a in args))
     if k == "mcall":
         return "%s.%s(%s)" % (t[1], t[2].name, ", ".join(x_src(a) for a in t[3]))
-    if k == "slit":
+    if k in ("slit", "dlit"):
         return '"%s"' % t[1]
     raise ValueError(k)
+
+
+def call_label(t):
+    """how a call instance came about (for the measured coverage)"""
+    f = t[1] if t[0] == "call" else t[2]
+    if f.struct:
+        return "method-" + ("generic-struct" if f.struct == "B" else "struct")
+    site = t[3] if len(t) > 3 else {}
+    if f.flavor == "generic":
+        return "generic-" + ("explicit" if site.get("targs") else "inferred")
+    if f.flavor == "default":
+        return "default-%d-omitted" % site.get("omit", 0)
+    return f.flavor
 
 
 def x_kind(t):
@@ -747,7 +782,7 @@ def x_kind(t):
         return "I"
     if k == "flit":
         return "F"
-    if k == "slit":
+    if k in ("slit", "dlit"):
         return "S"
     f = t[1] if k == "call" else t[2]
     return "S" if f.rtype == "string" else "I"
@@ -766,6 +801,8 @@ def x_value(t, ctx):
         return float(t[1])
     if k == "slit":
         return t[1]
+    if k == "dlit":
+        return t[2]
     f, args = (t[1], t[2]) if k == "call" else (t[2], t[3])
     if f.rtype == "string" or f.rtype == "void":
         return None
@@ -791,18 +828,22 @@ def callee_ctx(f, args, ctx, recv=None):
 def x_comp(t, ctx):
     """the model's comp for an expression evaluated in a context"""
     k = t[0]
-    if k in ("leaf", "arith", "ilit", "slit", "flit"):
+    if k in ("leaf", "arith", "ilit", "slit", "flit", "dlit"):
         return {"v": x_value(t, ctx)}
     f, args = (t[1], t[2]) if k == "call" else (t[2], t[3])
     cctx = callee_ctx(f, args, ctx, t[1] if k == "mcall" else None)
     params = [[name, x_comp(a, ctx)] for (ty, name), a in zip(f.params, args)]
-    return realize(f.body, f.ret, cctx, params, set(n for _, n in f.params))
+    c = realize(f.body, f.ret, cctx, params, set(n for _, n in f.params))
+    c["fl"] = call_label(t)
+    return c
 
 
 def realize_arg(a, ctx, locs, bound):
     if a[0] == "Q":
-        _, text, parts, fparts = a
+        text, parts, fparts = a[1], a[2], a[3]
         out = {"k": "Q", "text": text}
+        if len(a) > 4 and a[4] is not None:
+            out["src"] = a[4]        # the source spells the value differently ("a{x}" + "b{y}", ("a{x}")): same value
         if parts is not None:
             cp = []
             for p in parts:
@@ -826,49 +867,110 @@ def realize_arg(a, ctx, locs, bound):
             locs.setdefault(src, x_comp(t, ctx))
         return {"k": "R", "src": src}
     v = x_value(t, ctx)
-    return {"k": "I" if x_kind(t) == "I" else "S", "v": v, "src": src}
+    return {"k": "I" if isinstance(v, int) else "S", "v": v, "src": src}
+
+
+def ctx_instances(st, ctx):
+    """the scopes a control-flow statement opens when it runs in ctx: [(body, {name: value bound inside})]"""
+    how, info, bodies = st[1], st[2], st[3]
+    if how == "block":
+        return [(bodies[0], {})]
+    if how == "if":
+        b = bodies[0] if info["cond"][1](ctx) else bodies[1]
+        return [] if b is None else [(b, {})]
+    if how in ("for", "while"):
+        return [(bodies[0], {info["var"]: v}) for v in range(info["a"], info["b"])]
+    if how == "switch":
+        v = x_value(info["expr"], ctx)
+        for c, b in zip(info["cases"], bodies):
+            if v == c:
+                return [(b, {})]
+        return [] if bodies[-1] is None else [(bodies[-1], {})]
+    if how == "match":
+        v = x_value(info["expr"], ctx)
+        return [(bodies[0] if info["variant"] == "Ok" else bodies[1], {info["bind"]: v})]
+    raise ValueError(how)
 
 
 def realize(body, ret, ctx, params, bound, keep_after=False):
-    """one call instance: the statements it executes, the expressions they look up, the return expression"""
+    """one call instance: the statements it executes, the expressions they look up, the return expression.
+    A control-flow statement becomes {"ctx": how, "scopes": [{"alias": [[text, key]..], "body": [..]}..]}: one scope per
+    iteration / taken branch; the expressions evaluated inside a scope are registered under a key of their own (the
+    same text may mean something else in the next iteration) and the scope maps text -> key (COpen of Contexts.v)"""
     ctx = dict(ctx)
     bound = set(bound)
-    locs, stmts, r = {}, [], None
-    done = False
-    for st in body:
-        k = st[0]
-        if k == "print":
-            stmts.append({"nl": st[1], "args": [realize_arg(a, ctx, locs, bound) for a in st[2]], "kind": st[3]})
-            if st[3] == "n-bare":
-                stmts[-1]["bare"] = 1
-        elif k == "fail_if":
-            if st[2] is None or st[2](ctx):
-                stmts.append({"fail": st[3], "hard": st[4]})
-                if not keep_after:
-                    done = True
+    locs = {}
+    counter = [0]
+    state = {"done": False, "ret": None}
+
+    def run(body, ctx, bound, locs, top):
+        stmts = []
+        for st in body:
+            k = st[0]
+            if k == "print":
+                stmts.append({"nl": st[1], "args": [realize_arg(a, ctx, locs, bound) for a in st[2]], "kind": st[3]})
+                if st[3] == "n-bare":
+                    stmts[-1]["bare"] = 1
+            elif k == "defer":
+                d = st[1]
+                stmts.append({"defer": {"nl": d[1], "args": [realize_arg(a, ctx, locs, bound) for a in d[2]], "kind": d[3]},
+                              "kind": "n-defer"})
+            elif k == "ctx":
+                scopes = []
+                for body2, binds in ctx_instances(st, ctx):
+                    ctx2 = dict(ctx)
+                    ctx2.update(binds)
+                    locs2 = {}
+                    stmts2 = run(body2, ctx2, set(bound) - set(binds), locs2, False)
+                    alias = []
+                    for src, comp in locs2.items():
+                        key = "%s\x01%d" % (src, counter[0])
+                        counter[0] += 1
+                        locs[key] = comp
+                        alias.append([src, key])
+                    scopes.append({"alias": alias, "body": stmts2})
+                stmts.append({"ctx": st[1], "src": tstmt_src(st, ""), "scopes": scopes, "kind": "n-ctx-" + st[1]})
+            elif k == "fail_if":
+                if st[2] is None or st[2](ctx):
+                    stmts.append({"fail": st[3], "hard": st[4]})
+                    if not keep_after:
+                        state["done"] = True
+                        break
+            elif k == "eval":
+                src = x_src(st[1])
+                locs.setdefault(src, x_comp(st[1], ctx))
+                stmts.append({"eval": src, "kind": "n-call-stmt"})
+            elif k == "let":
+                arg = realize_arg(st[3], ctx, locs, bound)
+                stmts.append({"let": st[2], "type": st[1], "arg": arg, "kind": "n-init"})
+                if len(st) > 4 and st[4]:
+                    stmts[-1]["full_src"] = tstmt_src(st, "")
+                    stmts[-1]["kind"] = "n-init-" + st[4]
+                ctx[st[2]] = x_value(st[3][1], ctx) if st[3][0] == "E" else None
+                bound.add(st[2])
+            elif k == "ret_if":
+                if st[2](ctx):
+                    state["ret"] = realize_arg(st[3], ctx, locs, bound)
+                    state["done"] = True
                     break
-        elif k == "eval":
-            src = x_src(st[1])
-            locs.setdefault(src, x_comp(st[1], ctx))
-            stmts.append({"eval": src, "kind": "n-call-stmt"})
-        elif k == "let":
-            arg = realize_arg(st[3], ctx, locs, bound)
-            stmts.append({"let": st[2], "type": st[1], "arg": arg, "kind": "n-init"})
-            ctx[st[2]] = x_value(st[3][1], ctx) if st[3][0] == "E" else None
-            bound.add(st[2])
-        elif k == "ret_if":
-            if st[2](ctx):
-                r = realize_arg(st[3], ctx, locs, bound)
-                done = True
-                break
-    if not done and ret is not None:
+        return stmts
+
+    stmts = run(body, ctx, bound, locs, True)
+    r = state["ret"]
+    if not state["done"] and ret is not None:
         r = realize_arg(ret, ctx, locs, bound)
     return {"params": params, "locals": [[k, v] for k, v in locs.items()], "body": stmts, "ret": r}
 
 
 # ---- source text of templates
 def targ_src(a):
-    return '"%s"' % a[1] if a[0] == "Q" else x_src(a[1])
+    if a[0] == "Q":
+        return a[4] if len(a) > 4 and a[4] is not None else '"%s"' % a[1]
+    return x_src(a[1])
+
+
+def body_src(body, ind):
+    return [tstmt_src(st, ind) for st in body]
 
 
 def tstmt_src(st, ind="    "):
@@ -877,23 +979,85 @@ def tstmt_src(st, ind="    "):
         return ind + "print %s;" % targ_src(st[2][0])
     if k == "print":
         return ind + "%s(%s);" % ("println" if st[1] else "print", ", ".join(targ_src(a) for a in st[2]))
+    if k == "defer":
+        return ind + "defer " + tstmt_src(st[1], "")
+    if k == "ctx":
+        how, info, bodies = st[1], st[2], st[3]
+        i2 = ind + "    "
+        if how == "block":
+            lines = [ind + "{"] + body_src(bodies[0], i2) + [ind + "}"]
+        elif how == "if":
+            lines = [ind + "if (%s) {" % info["cond"][0]] + body_src(bodies[0], i2)
+            if bodies[1] is not None:
+                lines += [ind + "} else {"] + body_src(bodies[1], i2)
+            lines.append(ind + "}")
+        elif how == "for":
+            v = info["var"]
+            lines = [ind + "for (int %s = %s; %s < %d; %s++) {" % (v, lit(info["a"]), v, info["b"], v)] + body_src(bodies[0], i2) + [ind + "}"]
+        elif how == "while":
+            v = info["var"]
+            lines = [ind + "int %s = %s;" % (v, lit(info["a"])), ind + "while (%s < %d) {" % (v, info["b"])] + body_src(bodies[0], i2)
+            lines += [i2 + "%s = %s + 1;" % (v, v), ind + "}"]
+        elif how == "switch":
+            lines = [ind + "switch (%s) {" % x_src(info["expr"])]
+            for c, b in zip(info["cases"], bodies):
+                lines += [i2 + "case (%s) {" % lit(c)] + body_src(b, i2 + "    ") + [i2 + "}"]
+            if bodies[-1] is not None:
+                lines += [i2 + "else {"] + body_src(bodies[-1], i2 + "    ") + [i2 + "}"]
+            lines.append(ind + "}")
+        elif how == "match":
+            lines = [ind + "Mt %s = Mt::%s(%s);" % (info["enumvar"], info["variant"], x_src(info["expr"])),
+                     ind + "match (%s) {" % info["enumvar"]]
+            for variant, b in zip(("Ok", "Bad"), bodies):
+                lines += [i2 + "%s(%s) => {" % (variant, info["bind"])] + body_src(b, i2 + "    ") + [i2 + "}"]
+            lines.append(ind + "}")
+        else:
+            raise ValueError(how)
+        return "\n".join(lines)
     if k == "fail_if":
         return ind + (st[3] if st[1] is None else "if (%s) { %s }" % (st[1], st[3]))
     if k == "eval":
         return ind + x_src(st[1]) + ";"
     if k == "let":
-        return ind + "%s %s = %s;" % (st[1], st[2], targ_src(st[3]))
+        how = st[4] if len(st) > 4 else None
+        v = targ_src(st[3])
+        if how == "assign":      # declared first, assigned afterwards
+            return ind + '%s %s = "";\n%s%s = %s;' % (st[1], st[2], ind, st[2], v)
+        if how == "const":
+            return ind + "const %s %s = %s;" % (st[1], st[2], v)
+        if how == "pluseq":      # st[5]: the two halves of the value
+            return ind + "%s %s = %s;\n%s%s += %s;" % (st[1], st[2], st[5][0], ind, st[2], st[5][1])
+        if how == "member":
+            return ind + "%s = %s;" % (st[2], v)
+        if how == "global":      # declared and initialised at file level
+            return ind + "// %s is a global" % st[2]
+        return ind + "%s %s = %s;" % (st[1], st[2], v)
     if k == "ret_if":
         return ind + "if (%s) { return %s; }" % (st[1], targ_src(st[3]))
     raise ValueError(k)
 
 
+def param_src(f):
+    out = []
+    for ty, name in f.params:
+        if name in f.defaults:
+            out.append("%s %s = %s" % (ty, name, x_src(f.defaults[name])))
+        else:
+            out.append("%s %s" % (ty, name))
+    return ", ".join(out)
+
+
 def fdef_src(f, ind=""):
-    lines = [ind + "%s %s(%s) {" % (f.rtype, f.name, ", ".join("%s %s" % p for p in f.params))]
+    if f.flavor == "lambda":
+        head = "%s %s = %s func(%s) {" % (f.rtype, f.name, f.rtype, param_src(f))
+    else:
+        head = "%s%s %s%s(%s) {" % ({"async": "async ", "module": "export "}.get(f.flavor, ""), f.rtype, f.name,
+                                    "<T>" if f.flavor == "generic" else "", param_src(f))
+    lines = [ind + head]
     lines += [tstmt_src(st, ind + "    ") for st in f.body]
     if f.ret is not None:
         lines.append(ind + "    return %s;" % targ_src(f.ret))
-    lines.append(ind + "}")
+    lines.append(ind + ("};" if f.flavor == "lambda" else "}"))
     return lines
 
 
@@ -928,11 +1092,10 @@ class Oracle:
             env[name] = ("val", v)
         for text, lc in c["locals"]:
             env.setdefault(text, ("comp", lc))
-        for st in c["body"]:
-            s, failed = self.stmt(st, env)
-            out.append(s)
-            if failed:
-                return "".join(out), FAILV
+        s, failed = self.scope_body(c["body"], env)
+        out.append(s)
+        if failed:
+            return "".join(out), FAILV
         if c["ret"] is None:
             return "".join(out), 0
         s, v = self.value(c["ret"], env)
@@ -1056,10 +1219,39 @@ class Oracle:
                     out.append(c_int_directive(conv, flags, width, v))
         return "".join(out) + nl, False
 
+    def scope_body(self, body, env):
+        """the statements of one scope in order, then its deferred statements, last registered first"""
+        out, defers = [], []
+        for st in body:
+            if "defer" in st:
+                defers.append(st["defer"])
+                continue
+            s, failed = self.stmt(st, env)
+            out.append(s)
+            if failed:
+                return "".join(out), True
+        for d in reversed(defers):
+            s, failed = self.print_stmt(d, env)
+            out.append(s)
+            if failed:
+                return "".join(out), True
+        return "".join(out), False
+
     def stmt(self, st, env):
         """(what the statement writes, whether it ends the run with an error); extends env for a declaration"""
         if "fail" in st:
             return "", True
+        if "ctx" in st:
+            out = []
+            for sc in st["scopes"]:
+                env2 = dict(env)
+                for text, key in sc["alias"]:
+                    env2[text] = env[key]
+                s, failed = self.scope_body(sc["body"], env2)
+                out.append(s)
+                if failed:
+                    return "".join(out), True
+            return "".join(out), False
         if "eval" in st:
             s, v = self.lookup(env, st["eval"])
             return s, v is FAILV
@@ -1118,6 +1310,8 @@ class NestGen:
         self.top = None          # source of the functions
         self.avoided = {}
         self.alias_base = rng.randint(-1000, 1000)
+        self.nctx = 0
+        self.last_halves = None
 
     # -- pieces
     def text(self, n=5, allow=""):
@@ -1160,8 +1354,8 @@ class NestGen:
         rng = self.rng
         leaf_strs = [x for x in sc["strs"] if x[0] == "leaf" and len(x) < 5 and "." not in x[1]]
         cands = [f for f in sc["funcs"] if (("S" if f.rtype == "string" else "V" if f.rtype == "void" else "I") == kind)
-                 and (f.struct is None or sc["objs"]) and f.special is None
-                 and not (in_lit and not leaf_strs and any(ty == "string" for ty, _ in f.params))]
+                 and (f.struct is None or any(o[1] == f.struct for o in sc["objs"])) and f.special is None
+                 and not (in_lit and not leaf_strs and any(ty == "string" and name not in f.defaults for ty, name in f.params))]
         if not cands or depth <= 0:
             return None
         f = rng.choice(cands)
@@ -1170,9 +1364,47 @@ class NestGen:
     def call_of(self, f, sc, depth, force_k=None, in_lit=False):
         rng = self.rng
         args = []
-        for ty, name in f.params:
-            if ty == "long":
+        site = {}
+        leaf_strs = [x for x in sc["strs"] if x[0] == "leaf" and len(x) < 5 and "." not in x[1]]      # let-bound strings are not passed on
+        ndef = len(f.defaults)
+        omit = rng.randint(0, ndef) if ndef else 0
+        if in_lit and "dt" in f.defaults:
+            omit = ndef              # no quoted literal inside the braces: the string default (first default) stays unwritten
+        for i, (ty, name) in enumerate(f.params):
+            if omit and i >= len(f.params) - omit:
+                args.append(f.defaults[name])          # not written at the call site: the callee evaluates the default
+                continue
+            if ty == "T":
+                # the type argument: explicit (the call runs a clone of the body made for that type) or inferred
+                opts = ["int", "int", "long", "inf-int"]
+                if leaf_strs or not in_lit:
+                    opts += ["string", "string"]
+                if leaf_strs:        # T is inferred from a string variable, not from a string literal (rejected: type inference)
+                    opts += ["inf-string"]
+                if sc.get("anys"):
+                    opts += ["T", "T", "inf-T"]
+                o = rng.choice(opts)
+                if o in ("int", "inf-int"):
+                    args.append(("ilit", rng.randint(0, 999)))
+                    site["targs"] = "<int>" if o == "int" else ""
+                elif o == "long":
+                    args.append(("ilit", POOL[rng.randint(0, len(POOL) - 1)]))
+                    site["targs"] = "<long>"
+                elif o == "inf-string":
+                    args.append(rng.choice(leaf_strs))
+                    site["targs"] = ""
+                elif o == "string":
+                    args.append(rng.choice(leaf_strs + ([] if in_lit else [("slit", self.text(4) or "w")])))
+                    site["targs"] = "<string>"
+                else:
+                    args.append(rng.choice(sc["anys"]))
+                    site["targs"] = "<T>" if o == "T" else ""
+            elif ty == "long":
                 c = self.pick_call(sc, "I", depth - 1, in_lit) if rng.random() < 0.12 else None
+                if c is not None and c[0] == "call" and c[1].flavor == "lambda":
+                    c = None         # a lambda is not found when it is called inside another call's argument list (not C16's business)
+                if c is not None and f.flavor == "generic" and "tg" in x_src(c):
+                    c = None         # evaluated after the callee's tg is bound (known finding of C08: later argument, earlier parameter)
                 if c is None and rng.random() < 0.2:
                     # the same function is called again with a value that differs only above bit 32 / bit 31 (anything that
                     # remembers or passes a truncated value between evaluations of the same literal shows up)
@@ -1180,6 +1412,10 @@ class NestGen:
                 args.append(c or rng.choice(sc["ints"] + sc["smalls"]))
             elif ty == "int" and name == "d":
                 args.append(("ilit", rng.randint(0, 3)))       # recursion depth of r(d, n)
+            elif name == "dw":       # written default parameters get literals (an expression over the caller's k / t would be
+                args.append(("ilit", rng.randint(-999, 999)))      # evaluated against the callee's k / t: known finding of C08)
+            elif name == "dt":
+                args.append(("slit", self.text(4) or "w"))
             elif ty == "double":
                 args.append(rng.choice(sc.get("flts", []) + [("flit", self.flit())]))
             elif ty == "int":
@@ -1188,12 +1424,15 @@ class NestGen:
                 else:
                     args.append(rng.choice(sc["smalls"]))
             else:
-                leaf_strs = [x for x in sc["strs"] if x[0] == "leaf" and len(x) < 5 and "." not in x[1]]      # let-bound strings are not passed on
                 args.append(rng.choice(leaf_strs + ([] if in_lit else [("slit", self.text(4) or "w")])))
+        if omit:
+            site["omit"] = omit
+        if f.flavor == "async":
+            site["pre"] = "await "
         if f.struct:
-            recv = rng.choice(sc["objs"])
-            return ("mcall", recv, f, args)
-        return ("call", f, args)
+            recv = rng.choice([o[0] for o in sc["objs"] if o[1] == f.struct])
+            return ("mcall", recv, f, args, site)
+        return ("call", f, args, site)
 
     def expr_part(self, sc, depth, p_call):
         """one {..} segment: (exprT, spec)"""
@@ -1206,6 +1445,8 @@ class NestGen:
         r = rng.random()
         if sc.get("flts") and rng.random() < 0.18:
             return rng.choice(sc["flts"]), self.fspec()
+        if sc.get("anys") and rng.random() < 0.2:
+            return rng.choice(sc["anys"]), None          # a value of the type parameter's type
         if r < 0.45:
             return rng.choice(sc["ints"]), self.spec()
         strs = [x for x in sc["strs"] if x[0] == "leaf"]      # a quoted literal cannot stand inside the braces
@@ -1252,7 +1493,20 @@ class NestGen:
                 text.append("$")
             else:
                 text.append("{" + x_src(p[1]) + ("" if p[2] is None else ":" + p[2]) + "}")
-        return ("Q", "".join(text), parts, None)
+        # the same value spelled as an expression around the literal(s): ("..") and ".." + ".." (each half must still be
+        # an interpolated literal of its own, or free of "}}", which only an interpolated literal reads as "}")
+        src = None
+        r = rng.random()
+        if CTX_ON and r < 0.06:
+            src = '("%s")' % "".join(text)
+        elif CTX_ON and r < 0.2 and len(parts) >= 2:
+            cut = rng.randint(1, len(parts) - 1)
+            if not (cut < len(parts) and parts[cut - 1][0] == "dollar"):
+                halves = [(parts[:cut], text[:cut]), (parts[cut:], text[cut:])]
+                if all(any(q[0] in ("e", "lb") for q in ps) or not any(q[0] == "rb" for q in ps) for ps, _ in halves):
+                    src = '"%s" + "%s"' % ("".join(halves[0][1]), "".join(halves[1][1]))
+                    self.last_halves = ['"%s"' % "".join(halves[0][1]), '"%s"' % "".join(halves[1][1])]
+        return ("Q", "".join(text), parts, None, src)
 
     def plain_lit(self, escapes=True):
         rng = self.rng
@@ -1270,6 +1524,8 @@ class NestGen:
             if c is not None:
                 return ("E", c)
         r = rng.random()
+        if sc.get("anys") and r < 0.1:
+            return ("E", rng.choice(sc["anys"]))
         if r < 0.3:
             return ("E", rng.choice(sc["ints"] + sc["smalls"]))
         if r < 0.45:
@@ -1346,8 +1602,71 @@ class NestGen:
         fmt = ("Q", "".join(text), None, fparts)
         return ("print", 1 if rng.random() < 0.85 else 0, pre + [fmt] + args, "n-format")
 
-    def st_any(self, sc, depth, p_call=0.5):
+    def st_ctx(self, sc, depth, p_call, nest=2, allow_fn_defer=False):
+        """a control-flow statement whose bodies print: block, if/else, for, while, switch, match (with a bound value),
+        defer inside them.  The renderings inside are the same statements as anywhere else"""
+        rng = self.rng
+        self.nctx += 1
+        uid = self.nctx
+        how = rng.choice(["block", "if", "if", "for", "for", "while", "switch", "match", "match"])
+        if how == "match" and sc.get("no_enum"):
+            how = "switch"           # the enum is declared in the main file, not in the imported one
+
+        def body(sc2, may_defer=True):
+            out = []
+            for _ in range(rng.choice([1, 1, 2, 3])):
+                r = rng.random()
+                if r < 0.22 and may_defer and not sc.get("no_defer") and not sc.get("no_self_defer"):
+                    out.append(("defer", self.st_printing(sc2, depth, p_call)))
+                elif r < 0.36 and nest > 1:
+                    out.append(self.st_ctx(sc2, depth, p_call, nest - 1))
+                else:
+                    out.append(self.st_any(sc2, depth, p_call, ctx_ok=False))
+            return out
+
+        def with_small(name):
+            sc2 = dict(sc)
+            sc2["smalls"] = sc["smalls"] + [("leaf", name, name, "I")] * 3
+            return sc2
+
+        if how == "block":
+            return ("ctx", "block", {}, [body(sc)])
+        if how == "if":
+            e = rng.choice(sc["smalls"])
+            c = rng.randint(-50, 50)
+            op = rng.choice(["<", ">", "<=", "=="])
+            fn = {"<": (lambda a, b: a < b), ">": (lambda a, b: a > b), "<=": (lambda a, b: a <= b), "==": (lambda a, b: a == b)}[op]
+            cond = ("%s %s %s" % (x_src(e), op, lit(c)), (lambda ctx, e=e, c=c, fn=fn: fn(x_value(e, ctx), c)))
+            return ("ctx", "if", {"cond": cond}, [body(sc), body(sc) if rng.random() < 0.7 else None])
+        if how in ("for", "while"):
+            v = "%s%d_" % ("i" if how == "for" else "w", uid)
+            a = rng.randint(-2, 3)
+            n = rng.choice([0, 1, 2, 2, 3])
+            # while: the counter is advanced at the end of the body, a deferred statement would see the new value
+            return ("ctx", how, {"var": v, "a": a, "b": a + n}, [body(with_small(v), may_defer=(how == "for"))])
+        if how == "switch":
+            e = rng.choice(sc["smalls"])
+            cases = rng.sample(range(-9, 10), 2)
+            if e[0] == "ilit":
+                cases[rng.randint(0, 1)] = e[1]
+            return ("ctx", "switch", {"expr": e, "cases": cases}, [body(sc), body(sc), body(sc) if rng.random() < 0.7 else None])
+        e = rng.choice(sc["smalls"])
+        bind = "c%d_" % uid
+        return ("ctx", "match", {"enumvar": "e%d_" % uid, "variant": rng.choice(["Ok", "Bad"]), "expr": e, "bind": bind},
+                [body(with_small(bind)), body(with_small(bind))])
+
+    def st_printing(self, sc, depth, p_call):
         r = self.rng.random()
+        if r < 0.45:
+            return self.st_interp(sc, depth, p_call)
+        if r < 0.75:
+            return self.st_format(sc, depth, p_call)
+        return self.st_plain(sc, depth, p_call)
+
+    def st_any(self, sc, depth, p_call=0.5, ctx_ok=True):
+        r = self.rng.random()
+        if CTX_ON and ctx_ok and not sc.get("no_defer") and self.rng.random() < 0.22:
+            return self.st_ctx(sc, depth, p_call)
         if r < 0.03:
             return ("print", 1, [], "n-empty")                  # println();
         if r < 0.07:        # print expr;  (no parentheses: Interpreter::print_value directly)
@@ -1363,8 +1682,20 @@ class NestGen:
     def scope_of(self, f, level):
         """what the body of f can see: its parameters, members of self, every function defined before it"""
         sc = {"ints": [], "smalls": [], "strs": [], "funcs": [g for g in self.funcs if g.level < level], "objs": []}
+        if f.flavor in ("module", "async"):
+            # the imported file stands alone; an async function calls nothing: inside a function called from an async
+            # function's body assignments to local variables are lost (loops never end) - not C16's business
+            sc["funcs"] = []
+            sc["no_enum"] = f.flavor == "module"
+            # a scope or a deferred statement inside an awaited function upsets the caller's scopes (pending deferred
+            # statements disappear, loop variables become undefined): its body is straight-line
+            sc["no_defer"] = f.flavor == "async"
+        if f.struct:
+            sc["no_self_defer"] = True       # "defer println(self.x)" is rejected by the parser (self outside a method)
         for ty, name in f.params:
-            if ty == "long":
+            if ty == "T":
+                sc.setdefault("anys", []).append(("leaf", name, name, "A"))
+            elif ty == "long":
                 sc["ints"].append(("leaf", name, name, "I"))
             elif ty == "double":
                 sc.setdefault("flts", []).append(("leaf", name, name, "F"))
@@ -1378,7 +1709,9 @@ class NestGen:
             sc["ints"].append(("leaf", "self.a", "self.a", "I"))
             sc["smalls"].append(("leaf", "self.b", "self.b", "I"))
             sc["strs"].append(("leaf", "self.nm", "self.nm", "S"))
-            sc["objs"] = ["self"]
+            sc["objs"] = [("self", f.struct)]
+            if f.struct == "B":
+                sc.setdefault("anys", []).append(("leaf", "self.v", "self.v", "A"))
         if not sc["ints"]:
             sc["ints"] = [("ilit", POOL[(self.k * 13 + level * 7 + len(self.funcs)) % len(POOL)])]
         if not sc["smalls"]:
@@ -1387,7 +1720,7 @@ class NestGen:
             sc["strs"] = [("slit", self.text(4) or "z")]
         return sc
 
-    def make_func(self, idx, level, struct=None):
+    def make_func(self, idx, level, struct=None, flavor=None):
         rng = self.rng
         rtype = rng.choice(["string", "string", "string", "long", "int", "void"])
         sig = rng.choice([[("long", "n")], [("long", "n"), ("int", "k")], [("long", "n"), ("string", "t")], [("int", "k")],
@@ -1397,9 +1730,33 @@ class NestGen:
             sig = [p for p in sig if p[1] != "t"] if rng.random() < 0.5 else sig
         if rtype == "int" and not any(ty == "int" for ty, _ in sig):
             sig = sig + [("int", "k")]
-        f = FDef(("m%d" if struct else "f%d") % idx, rtype, sig, level, struct)
+        if flavor is None:
+            flavor = "plain"
+            if CTX_ON and not struct:
+                flavor = rng.choice(["plain", "plain", "generic", "generic", "generic", "async", "default", "default"]
+                                    + (["module", "module"] if level == 0 else []))
+        if flavor == "lambda":       # lambdas take integers only (string / double parameters arrive damaged: not C16's business)
+            sig = rng.choice([[("long", "n")], [("long", "n"), ("int", "k")], [("int", "k")]])
+            if rtype == "int" and not any(ty == "int" for ty, _ in sig):
+                sig = sig + [("int", "k")]
+        defaults = {}
+        if flavor == "generic":
+            sig = [("T", "tg")] + sig
+        elif flavor == "default":
+            which = rng.choice(["dt", "dw", "both"])
+            if which in ("dt", "both"):
+                sig = sig + [("string", "dt")]
+                defaults["dt"] = ("dlit",) + rng.choice([("dv{{}}", "dv{}"), ("{{", "{"), ("d-é".encode("utf-8").decode("latin-1"),) * 2,
+                                                        ("", ""), ("100%", "100%")])
+            if which in ("dw", "both"):
+                sig = sig + [("int", "dw")]
+                defaults["dw"] = ("ilit", rng.choice([7, -7, 0, 255, 65535, rng.randint(-999, 999)]))     # int arithmetic of the body stays in range
+        name = {"lambda": "lm%d", "module": "mq%d"}.get(flavor, "m%d" if struct == "P" else "g%d" if struct == "B" else "f%d") % idx
+        f = FDef(name, rtype, sig, level, struct, flavor)
+        f.defaults = defaults
         sc = self.scope_of(f, level)
-        depth = level            # calls reach strictly lower levels
+        sc0 = dict(sc)           # the scope before the body declares anything
+        depth = min(level, 3)    # calls reach strictly lower levels
         p_call = 0.0 if level == 0 else 0.55
         nb = rng.choice([0, 0, 1, 1, 2]) if rtype != "void" else rng.choice([1, 2])
         for _ in range(nb):
@@ -1412,7 +1769,7 @@ class NestGen:
             if r < 0.24:
                 nm = "w%d" % len(f.body)
                 if rng.random() < 0.6:
-                    f.body.append(("let", "string", nm, self.interp(sc, depth, p_call, 3)))
+                    f.body.append(self.let_interp(nm, sc, depth, p_call, 3))
                     sc["strs"] = sc["strs"] + [("leaf", nm, nm, "S", "let")]
                     continue
             f.body.append(self.st_any(sc, depth, p_call))
@@ -1429,7 +1786,25 @@ class NestGen:
             f.ret = ("E", rng.choice([e for e in sc["ints"] + sc["smalls"]]))
         elif rtype == "int":
             f.ret = ("E", rng.choice(sc["smalls"]))
+        if CTX_ON and rtype != "string" and flavor != "async" and not struct and rng.random() < 0.12:     # (an async function runs it at once)
+            # a deferred print at function level: runs when the body is through (the return expression is effect-free here,
+            # so its place relative to the deferred statement cannot be observed)
+            f.body.insert(rng.randint(0, len(f.body)), ("defer", self.st_printing(sc0, depth, p_call)))
         return f
+
+    def let_interp(self, nm, sc, depth, p_call, maxseg):
+        """string nm = <interpolated literal>; in one of its spellings: initialiser, declaration + assignment, const, +="""
+        rng = self.rng
+        self.last_halves = None
+        q = self.interp(sc, depth, p_call, maxseg)
+        r = rng.random()
+        if not CTX_ON or r < 0.55:
+            return ("let", "string", nm, q)
+        if self.last_halves and q[4] and " + " in q[4] and r < 0.75:
+            return ("let", "string", nm, q, "pluseq", self.last_halves)
+        if r < 0.88:
+            return ("let", "string", nm, q, "assign")
+        return ("let", "string", nm, q, "const")
 
     def make_rec(self, idx):
         """string r(int d, long n): the same AST node is evaluated again while it is being evaluated"""
@@ -1477,7 +1852,8 @@ class NestGen:
 
     def build(self):
         rng = self.rng
-        # free functions of level 0..3, methods of struct P (levels 0..2), a recursive function, the failing ones
+        # free functions of level 0..3 (plain / generic / async / default parameters / imported module), methods of
+        # struct P and of the generic struct Box<T> (levels 0..2), a recursive function, the failing ones, lambdas
         self.special = self.make_special()
         self.funcs += self.special
         idx = 0
@@ -1488,23 +1864,41 @@ class NestGen:
             if level < 3 and rng.random() < 0.8:
                 self.funcs.append(self.make_func(idx, level, struct="P"))
                 idx += 1
+            if CTX_ON and level < 3 and rng.random() < 0.6:
+                self.funcs.append(self.make_func(idx, level, struct="B"))
+                idx += 1
             if level == 1:
                 self.funcs.append(self.make_rec(idx))
                 idx += 1
-        # source: free functions must precede their callers; methods live in one impl block, which comes after all
-        # free functions (a method may call any of them)
-        self.top = {"frees": [[f.name, fdef_src(f)] for f in self.funcs if not f.struct],
-                    "meths": [[m.name, "%s %s(%s);" % (m.rtype, m.name, ", ".join("%s %s" % p for p in m.params)), fdef_src(m, "    ")]
-                              for m in self.funcs if m.struct]}
+        if CTX_ON:
+            for _ in range(rng.choice([1, 2])):
+                self.funcs.append(self.make_func(idx, 4, flavor="lambda"))
+                idx += 1
+        # source: free functions must precede their callers; methods live in one impl block per struct, which comes
+        # after all free functions (a method may call any of them); module functions go to the imported file, lambdas
+        # to main's declarations
+        sig = lambda m: "%s %s(%s);" % (m.rtype, m.name, ", ".join("%s %s" % p for p in m.params))
+        self.top = {"frees": [[f.name, fdef_src(f)] for f in self.funcs if not f.struct and f.flavor not in ("module", "lambda")],
+                    "meths": [[m.name, sig(m), fdef_src(m, "    ")] for m in self.funcs if m.struct == "P"],
+                    "gmeths": [[m.name, sig(m), fdef_src(m, "    ")] for m in self.funcs if m.struct == "B"],
+                    "mods": [[f.name, fdef_src(f)] for f in self.funcs if f.flavor == "module"]}
+        self.lambdas = [[f.name, "\n    ".join(fdef_src(f))] for f in self.funcs if f.flavor == "lambda"]
         return self
 
 
 def top_lines(top):
     if not top:
         return []
-    lines = ["struct P { long a; int b; string nm; };"]
+    lines = list(top.get("defines", []))
+    if top.get("mods"):
+        lines.append("import mq;")
+    lines += ["struct P { long a; int b; string nm; };", "struct Box<T> { T v; long a; int b; string nm; };",
+              "enum Mt { Ok(int), Bad(int) };"]
     if top["meths"]:
         lines.append("interface Sh { %s };" % " ".join(m[1] for m in top["meths"]))
+    if top.get("gmeths"):
+        lines.append("interface Gt<T> { %s };" % " ".join(m[1] for m in top["gmeths"]))
+    lines += top.get("globals", [])
     for f in top["frees"]:
         lines += f[1]
     if top["meths"]:
@@ -1512,7 +1906,19 @@ def top_lines(top):
         for m in top["meths"]:
             lines += m[2]
         lines.append("};")
+    if top.get("gmeths"):
+        lines.append("impl Gt<T> for Box<T> {")
+        for m in top["gmeths"]:
+            lines += m[2]
+        lines.append("};")
     return lines
+
+
+def module_src(p):
+    top = p.get("top")
+    if not top or not top.get("mods"):
+        return None
+    return "\n".join(l for f in top["mods"] for l in f[1]) + "\n"
 
 
 def prune_top(top, used):
@@ -1520,16 +1926,18 @@ def prune_top(top, used):
     if not top:
         return top
     import re
-    texts = {f[0]: "\n".join(f[1]) for f in top["frees"]}
-    texts.update({m[0]: "\n".join(m[2]) for m in top["meths"]})
+    texts = {f[0]: "\n".join(f[1]) for f in top["frees"] + top.get("mods", [])}
+    texts.update({m[0]: "\n".join(m[2]) for m in top["meths"] + top.get("gmeths", [])})
     keep, todo = set(), [used]
     while todo:
         t = todo.pop()
         for name in texts:
-            if name not in keep and re.search(r"\b%s\(" % re.escape(name), t):
+            if name not in keep and re.search(r"\b%s(<[A-Za-z]*>)?\(" % re.escape(name), t):
                 keep.add(name)
                 todo.append(texts[name])
-    return {"frees": [f for f in top["frees"] if f[0] in keep], "meths": [m for m in top["meths"] if m[0] in keep]}
+    return {"frees": [f for f in top["frees"] if f[0] in keep], "meths": [m for m in top["meths"] if m[0] in keep],
+            "gmeths": [m for m in top.get("gmeths", []) if m[0] in keep], "mods": [f for f in top.get("mods", []) if f[0] in keep],
+            "defines": top.get("defines", []), "globals": top.get("globals", [])}
 
 
 def nested_program(seed, k, tier, n_stmts):
@@ -1550,7 +1958,21 @@ def nested_program(seed, k, tier, n_stmts):
         decls.append('P %s = {%s, %s, "%s"};' % (on, lit(a), lit(b), nm))
         ctx["@" + on] = {"a": a, "b": b, "nm": nm}
         ctx[on + ".a"], ctx[on + ".b"], ctx[on + ".nm"] = a, b, nm
-        objs.append(on)
+        objs.append((on, "P"))
+    if CTX_ON:
+        # objects of the generic struct: every method call on them runs the impl instantiated for Box<int> / Box<string>
+        for on, ty in (("bi", "int"), ("bs", "string")):
+            v = rng.randint(-999, 999) if ty == "int" else (rand_text(rng, 4) or "v")
+            a = g.pick_value(rng.randint(0, 50))
+            b = rng.randint(-999, 999)
+            nm = rand_text(rng, 5)
+            decls.append('Box<%s> %s; %s.v = %s; %s.a = %s; %s.b = %s; %s.nm = "%s";'
+                         % (ty, on, on, lit(v) if ty == "int" else '"%s"' % v, on, lit(a), on, lit(b), on, nm))
+            ctx["@" + on] = {"v": v, "a": a, "b": b, "nm": nm}
+            objs.append((on, "B"))
+        decls.append('P pz = {1, 2, "z"};')
+        for name, src in ng.lambdas:
+            decls.append(src)
     arr = [g.pick_value(rng.randint(0, 50)) for _ in range(4)]
     decls.append("long[4] arr = [%s];" % ", ".join(lit(v) for v in arr))
     flts = []
@@ -1596,16 +2018,22 @@ def nested_program(seed, k, tier, n_stmts):
                 body.append(("eval", c))
                 continue
         if r < 0.22:
-            nm = "L%d" % nlet
+            nm = "u%d" % nlet
             nlet += 1
-            if rng.random() < 0.65:
-                body.append(("let", "string", nm, ng.interp(sc, 3, 0.6, 4)))
+            if CTX_ON and rng.random() < 0.1:
+                # a struct member assigned an interpolated literal, read back by name from then on
+                q_ = ng.interp(sc, 3, 0.6, 3)
+                # never the empty string: assigning "" to a struct member leaves the old value (not C16's business)
+                body.append(("let", "string", "pz.nm", ("Q", "m" + q_[1], [("t", "m")] + q_[2], None, None), "member"))
+                sc["strs"] = sc["strs"] + [("leaf", "pz.nm", "pz.nm", "S", "let")]
+            elif rng.random() < 0.65:
+                body.append(ng.let_interp(nm, sc, 3, 0.6, 4))
                 sc["strs"] = sc["strs"] + [("leaf", nm, nm, "S", "let")]
             else:
                 c = ng.pick_call(sc, "I", 3)
                 if c is not None:
                     f = c[1] if c[0] == "call" else c[2]
-                    body.append(("let", "long" if f.rtype == "long" else "int", nm, ("E", c)))
+                    body.append(("let", "long" if f.rtype == "long" else "int", nm, ("E", c)))      # (an upper-case name before '<' is read as a generic type)
                     (sc["ints"] if f.rtype == "long" else sc["smalls"]).append(("leaf", nm, nm, "I"))
             continue
         body.append(ng.st_any(sc, 3, 0.6))
@@ -1699,6 +2127,242 @@ def float_programs(seed, tier):
     return progs, len(pairs)
 
 
+def parts_literal(parts):
+    """the interpolated literal made of the given parts: ("Q", text, parts, None, None)"""
+    text = []
+    for p in parts:
+        if p[0] == "t":
+            text.append(p[1])
+        elif p[0] == "lb":
+            text.append("{{")
+        elif p[0] == "rb":
+            text.append("}}")
+        elif p[0] == "dollar":
+            text.append("$")
+        else:
+            text.append("{" + x_src(p[1]) + ("" if p[2] is None else ":" + p[2]) + "}")
+    return ("Q", "".join(text), parts, None, None)
+
+
+def fparts_literal(fparts):
+    text = []
+    for p in fparts:
+        if p[0] == "t":
+            text.append(p[1])
+        elif p[0] == "pp":
+            text.append("%%")
+        else:
+            text.append("%" + p[2] + (str(p[3]) if p[3] else "") + p[1])
+    return ("Q", "".join(text), None, fparts, None)
+
+
+POSITIONS = ["plain", "generic<int>", "generic<string>", "generic<long>", "generic-inferred", "generic<T>-from-generic",
+             "method", "generic-struct-method<int>", "generic-struct-method<string>", "lambda", "default-omitted", "default-written",
+             "async", "module", "for", "while", "if", "else", "switch-case", "switch-else", "match-Ok", "match-Bad", "block", "defer",
+             "for-in-generic<int>", "match-in-generic-struct-method<string>", "defer-in-lambda", "macro", "macro-in-generic<int>",
+             "global-initialiser"]
+
+
+def position_forms(n, k, t, W, extra=None):
+    """every rendering form over the expressions n (integer), k (small integer), t (string): each documented interpolation spec,
+    {{ }} $ and UTF-8 text around them; printf-style directives with flags and width; a plain argument list with an escaped
+    literal; print without newline and an empty println; a string variable initialised from an interpolated literal"""
+    e8 = "é".encode("utf-8").decode("latin-1")
+    parts = [("t", "<")]
+    for sp in ["x", "X", "b", "d", "%d" % W, "%dd" % W, "0%d" % W, "0%dd" % W, "%dx" % W, "0%dx" % W, "0%dX" % W, "0%db" % W, ""]:
+        parts += [("e", n, sp), ("t", "|")]
+    parts += [("e", k, "0%d" % W), ("lb",), ("e", t, None), ("rb",), ("dollar",), ("e", k, None), ("t", e8 + ">")]
+    if extra is not None:
+        parts += [("e", extra, None), ("t", "~")]
+    fparts = [("t", "["), ("d", "d", "", 0), ("t", "|"), ("d", "lld", "", W), ("t", "|"), ("d", "d", "0", W), ("t", "|"), ("d", "d", "-", W),
+              ("t", "|"), ("d", "x", "", 0), ("t", "|"), ("d", "X", "0", W), ("t", "|"), ("d", "o", "", 0), ("t", "|"), ("d", "u", "", 0),
+              ("t", "|"), ("d", "s", "", 0), ("t", "|"), ("d", "s", "-", W), ("t", "|"), ("d", "c", "", 0), ("pp",), ("t", e8 + "]")]
+    fargs = [("E", n)] * 8 + [("E", t), ("E", t), ("E", ("ilit", 65 + W))]
+    return [("print", 1, [parts_literal(parts)], "pos-interp"),
+            ("print", 1, [fparts_literal(fparts)] + fargs, "pos-format"),
+            ("print", 1, [("E", n), ("E", k), ("E", t), ("Q", "a\\tb" + e8, None, None), parts_literal([("t", "w"), ("e", n, "0%dx" % W), ("rb",)]),
+                          fparts_literal([("d", "s", "", W), ("t", "|"), ("d", "lld", "0", W), ("t", "!")]), ("E", t), ("E", n)], "pos-plain"),
+            ("print", 0, [("E", n)], "pos-plain"),
+            ("print", 1, [], "n-empty")]
+
+
+def position_programs(seed, tier):
+    """one program per code position: the same rendering statements (position_forms) stand in a function of every kind and
+    inside every control-flow statement; main calls it with boundary values, directly and from inside an interpolated literal"""
+    progs = []
+    nval = 3 if tier == "quick" else 24
+    n_, k_, t_ = ("leaf", "n", "n", "I"), ("leaf", "k", "k", "I"), ("leaf", "t", "t", "S")
+    for pi, pos in enumerate(POSITIONS):
+        rng = rng_for(seed, "c16-pos", pi)
+        W = rng.randint(0, 22)
+        sig = [("long", "n"), ("int", "k"), ("string", "t")]
+        kk = rng.randint(-99, 99)
+        funcs, lambdas, mods = [], [], []
+        struct, flavor, site, extra, pre = None, "plain", {}, None, []
+        forwarded = False
+        tag = None
+        base = pos.split("-in-")[-1] if "-in-" in pos else pos
+        if base.startswith("generic<") or base in ("generic-inferred",):
+            flavor = "generic"
+            sig = [("T", "tg")] + sig
+            extra = ("leaf", "tg", "tg", "A")
+            ty = base[8:base.index(">")] if base.startswith("generic<") else "inferred"
+            forwarded = ty == "T"
+            if ty == "T":
+                ty = "int"
+            tag = {"int": ("ilit", rng.randint(0, 999)), "long": ("ilit", POOL[rng.randint(0, len(POOL) - 1)]),
+                   "string": ("slit", rand_text(rng, 4) or "w"), "inferred": ("ilit", rng.randint(0, 999))}[ty]
+            site = {"targs": "" if ty == "inferred" else "<%s>" % ty}
+        elif base == "method":
+            struct = "P"
+        elif base.startswith("generic-struct-method"):
+            struct = "B"
+            extra = ("leaf", "self.v", "self.v", "A")
+        elif base == "lambda":
+            flavor = "lambda"
+            sig = [("long", "n"), ("int", "k")]
+            pre = [("let", "string", "t", ("E", ("slit", rand_text(rng, 4) or "w")))]
+        elif base.startswith("default"):
+            flavor = "default"
+            sig = sig + [("string", "dt"), ("int", "dw")]
+            extra = ("leaf", "dt", "dt", "S")
+        elif base == "async":
+            flavor, site = "async", {"pre": "await "}
+        elif base == "module":
+            flavor = "module"
+        f = FDef({"lambda": "lmp", "module": "mqp"}.get(flavor, "mp" if struct == "P" else "gp" if struct == "B" else "fp"),
+                 "string", sig, 0, struct, flavor)
+        if flavor == "default":
+            f.defaults = {"dt": ("dlit", "dv{{}}", "dv{}"), "dw": ("ilit", 7)}
+        forms = position_forms(n_, k_, ("leaf", "t", "t", "S", "let") if flavor == "lambda" else t_, W, extra)
+        if flavor == "default":
+            forms.append(("print", 1, [parts_literal([("e", ("leaf", "dw", "dw", "I"), "0%dx" % W), ("lb",), ("e", ("leaf", "dt", "dt", "S"), None)])], "pos-interp"))
+        lead = pos.split("-in-")[0] if "-in-" in pos else pos
+        i_ = ("leaf", "i1_", "i1_", "I")
+        c_ = ("leaf", "c1_", "c1_", "I")
+        loopline = ("print", 1, [parts_literal([("t", "it"), ("e", i_, "0%d" % W), ("t", "|"), ("e", n_, "x")])], "pos-interp")
+        if lead == "for":
+            body = [("ctx", "for", {"var": "i1_", "a": -1, "b": 2}, [forms + [loopline]])]
+        elif lead == "while":
+            body = [("ctx", "while", {"var": "i1_", "a": 0, "b": 2}, [forms + [loopline]])]
+        elif lead in ("if", "else"):
+            cond = ("k == %s" % lit(kk), (lambda ctx: ctx["k"] == kk)) if lead == "if" else ("k != %s" % lit(kk), (lambda ctx: ctx["k"] != kk))
+            other = [("print", 1, [("Q", "other", None, None)], "pos-plain")]
+            body = [("ctx", "if", {"cond": cond}, [forms, other] if lead == "if" else [other, forms])]
+        elif lead in ("switch-case", "switch-else"):
+            other = [("print", 1, [("Q", "other", None, None)], "pos-plain")]
+            if lead == "switch-case":
+                body = [("ctx", "switch", {"expr": k_, "cases": [kk + 1, kk]}, [other, forms, other])]
+            else:
+                body = [("ctx", "switch", {"expr": k_, "cases": [kk + 1, kk + 2]}, [other, other, forms])]
+        elif lead in ("match-Ok", "match-Bad", "match"):
+            variant = "Bad" if lead == "match-Bad" else "Ok"
+            arm = forms + [("print", 1, [parts_literal([("t", "c"), ("e", c_, "0%d" % W), ("t", "|"), ("e", c_, "x")])], "pos-interp")]
+            other = [("print", 1, [("Q", "other", None, None)], "pos-plain")]
+            body = [("ctx", "match", {"enumvar": "e1_", "variant": variant, "expr": k_, "bind": "c1_"},
+                     [arm, other] if variant == "Ok" else [other, arm])]
+        elif lead == "block":
+            body = [("ctx", "block", {}, [forms])]
+        elif lead == "defer":
+            body = [("ctx", "block", {}, [[("defer", st) for st in forms] + [("print", 1, [("Q", "first", None, None)], "pos-plain")]])]
+        else:
+            body = forms
+        defines, globs = [], []
+        if lead == "macro":
+            # every literal of the function reaches the lexer through the preprocessor: #define LMj "<literal>"
+            def via_macro(st):
+                args = []
+                for a in st[2]:
+                    if a[0] == "Q":
+                        name = "LM%d" % len(defines)
+                        defines.append('#define %s "%s"' % (name, a[1]))
+                        a = a[:4] + (name,)
+                    args.append(a)
+                return (st[0], st[1], args, st[3])
+            body = [via_macro(st) for st in forms]
+        f.body = pre + body
+        f.ret = parts_literal([("t", "r"), ("e", n_, "X"), ("t", "|"), ("e", k_, "0%d" % W), ("rb",)])
+        # main
+        g = Gen(rng, pi)
+        decls = list(g.decls)
+        ctx = {}
+        for nm, v in g.ints + g.small:
+            ctx[nm] = v
+        for nm, tx in g.strs:
+            ctx[nm] = tx
+        objs = {"p": None, "bi": "int", "bs": "string"}
+        a, b, nm = g.pick_value(3), rng.randint(-999, 999), rand_text(rng, 4)
+        decls.append('P p = {%s, %s, "%s"};' % (lit(a), lit(b), nm))
+        ctx["@p"] = {"a": a, "b": b, "nm": nm}
+        for on, ty in (("bi", "int"), ("bs", "string")):
+            v = rng.randint(-999, 999) if ty == "int" else (rand_text(rng, 4) or "v")
+            decls.append('Box<%s> %s; %s.v = %s; %s.a = %s; %s.b = %s; %s.nm = "%s";'
+                         % (ty, on, on, lit(v) if ty == "int" else '"%s"' % v, on, lit(a), on, lit(b), on, nm))
+            ctx["@" + on] = {"v": v, "a": a, "b": b, "nm": nm}
+        outer = None
+        if flavor == "generic" and forwarded:      # reached through another generic function that forwards its type parameter
+            outer = FDef("op", "string", list(sig), 1, None, "generic")
+            outer.ret = parts_literal([("t", "o["), ("e", ("call", f, [("leaf", "tg", "tg", "A"), n_, k_, t_], {"targs": "<T>"}), None), ("t", "]")])
+        body_main = []
+        if pos == "global-initialiser":
+            # string variables at file level initialised from interpolated literals over other globals: evaluated before
+            # main runs; for the model they are main's first declarations (no source line of their own in main)
+            gv = POOL[(seed * 41 + pi) % len(POOL)]
+            gk = rng.randint(-999, 999)
+            gt = rand_text(rng, 4)
+            globs += ["long gn = %s;" % lit(gv), "int gk = %s;" % lit(gk), 'string gt = "%s";' % gt]
+            ctx.update({"gn": gv, "gk": gk, "gt": gt})
+            gn_, gk_, gt_ = ("leaf", "gn", "gn", "I"), ("leaf", "gk", "gk", "I"), ("leaf", "gt", "gt", "S")
+            lits = [parts_literal(position_forms(gn_, gk_, gt_, W)[0][2][0][2]),
+                    parts_literal([("lb",), ("e", gk_, "0%dx" % W), ("rb",), ("t", "|"), ("e", gt_, None)])]
+            # (a const global is initialised before the non-const ones it mentions: both stay non-const)
+            for gi, (q_, decl) in enumerate(zip(lits, ("string", "string"))):
+                globs.append("%s gs%d = %s;" % (decl, gi, targ_src(q_)))
+                body_main.append(("let", "string", "gs%d" % gi, q_, "global"))
+            gl = [("leaf", "gs%d" % gi, "gs%d" % gi, "S", "let") for gi in range(2)]
+            body_main.append(("print", 1, [("E", gl[0]), ("E", gl[1])], "pos-plain"))
+            body_main.append(("print", 1, [parts_literal([("t", "<"), ("e", gl[0], None), ("t", "|"), ("e", gl[1], None), ("t", ">")])], "pos-interp"))
+        for j in range(nval):
+            v = POOL[(seed * 37 + pi * 101 + j * 53) % len(POOL)]
+            sv = ("leaf", g.strs[j % 3][0], g.strs[j % 3][0], "S")
+            args = [("ilit", v), ("ilit", kk)] + ([] if flavor == "lambda" else [sv])
+            st = dict(site)
+            if flavor == "generic":
+                args = [tag] + args
+            if flavor == "default":
+                if pos == "default-omitted":
+                    args += [f.defaults["dt"], f.defaults["dw"]]
+                    st["omit"] = 2
+                else:
+                    sv2 = g.strs[(j + 1) % 3][0]
+                    args += [("leaf", sv2, sv2, "S"), ("ilit", rng.randint(-999, 999))]
+            if outer is not None:
+                c = ("call", outer, args, {"targs": "<int>"})
+            elif struct:
+                recv = "p" if struct == "P" else ("bs" if "string" in pos else "bi")
+                c = ("mcall", recv, f, args, st)
+            else:
+                c = ("call", f, args, st)
+            body_main.append(("print", 1, [("E", c)], "pos-call"))
+            if "string" not in pos or flavor != "generic":      # (no quoted literal inside the braces)
+                body_main.append(("print", 1, [parts_literal([("t", "<"), ("e", c, None), ("t", ">")])], "pos-call-in-literal"))
+        fl = [f] + ([outer] if outer else [])
+        sigt = lambda m: "%s %s(%s);" % (m.rtype, m.name, ", ".join("%s %s" % q for q in m.params))
+        top = {"frees": [[x.name, fdef_src(x)] for x in fl if not x.struct and x.flavor not in ("module", "lambda")],
+               "meths": [[m.name, sigt(m), fdef_src(m, "    ")] for m in fl if m.struct == "P"],
+               "gmeths": [[m.name, sigt(m), fdef_src(m, "    ")] for m in fl if m.struct == "B"],
+               "mods": [[x.name, fdef_src(x)] for x in fl if x.flavor == "module"], "defines": defines, "globals": globs}
+        for x in fl:
+            if x.flavor == "lambda":
+                decls.append("\n    ".join(fdef_src(x)))
+        inst = realize(body_main, None, dict(ctx), [], set(), keep_after=True)
+        env = [[t, "C", c] if "body" in c else [t, "F" if isinstance(c["v"], float) else "I" if isinstance(c["v"], int) else "S", c["v"]]
+               for t, c in inst["locals"]]
+        progs.append(apply_oracle({"k": pi, "decls": decls, "env": env, "stmts": inst["body"], "ending": "normal", "main": "void",
+                                   "avoided": {}, "top": top, "nested": 1, "position": pos}))
+    return progs
+
+
 def nested_malformed(seed, n):
     """a literal that does not split, inside a function (called or not): parse error, nothing runs"""
     out = []
@@ -1716,13 +2380,22 @@ def nested_malformed(seed, n):
 
 
 def nested_stats(p, st):
-    """measured shape of a nested program: call instances, and every rendering (interpolated literal / plain argument
-    list / printf-style statement) with the number of renderings in progress around it and the kind of the innermost one"""
+    """measured shape of a nested program: call instances (by the way the callee is defined / called), every rendering
+    (interpolated literal / plain argument list / printf-style statement) with the number of renderings in progress around
+    it and the kind of the innermost one, and the code position of every executed print statement"""
     st.setdefault("instances", 0)
     st.setdefault("renderings_by_depth", {})
     st.setdefault("inner_in_outer", {})
     st.setdefault("programs_by_max_depth", {})
+    byfl = st.setdefault("instances_by_callee_kind", {})
+    specfl = st.setdefault("formatted_segments_by_callee_kind", {})
+    printfl = st.setdefault("print_statements_by_callee_kind", {})
+    inctx = st.setdefault("print_statements_by_enclosing_statement", {})
+    spell = st.setdefault("literal_spellings", {})
     top = [0]
+
+    def bump(d, k, n=1):
+        d[k] = d.get(k, 0) + n
 
     def arg_refs(a):
         if a["k"] == "R":
@@ -1741,50 +2414,81 @@ def nested_stats(p, st):
 
     def walk(inst, rd, outer):
         st["instances"] += 1
+        fl = inst.get("fl", "main")
+        bump(byfl, fl)
         loc = dict((t, c) for t, c in inst["locals"])
 
-        def visit(refs, rd2, kind):
+        def visit(refs, rd2, kind, al):
             for r in refs:
-                c = loc.get(r)
+                k_, hops = r, 0
+                while k_ in al and hops < 8:        # chained aliases of nested scopes
+                    k_, hops = al[k_], hops + 1
+                c = loc.get(k_)
                 if c is not None and "body" in c:
                     walk(c, rd2, kind)
 
-        def render_arg(a, rd2, kind):
+        def render_arg(a, rd2, kind, al):
+            if a["k"] == "Q":
+                if "src" in a:
+                    bump(spell, "concatenation" if " + " in a["src"] else "parenthesised")
+                if "parts" in a:
+                    bump(specfl, fl, sum(1 for q in a["parts"] if q[0] == "e" and q[2]))
             if a["k"] == "Q" and "parts" in a:
                 note("interp", rd2 + 1, kind)
-                visit(arg_refs(a), rd2 + 1, "interp")
+                visit(arg_refs(a), rd2 + 1, "interp", al)
             else:
-                visit(arg_refs(a), rd2, kind)
+                visit(arg_refs(a), rd2, kind, al)
+
+        def stmts(body, where, al):
+            for s in body:
+                if "fail" in s or "ret" in s:
+                    break
+                if "eval" in s:
+                    visit([s["eval"]], rd, outer, al)
+                elif "let" in s:
+                    if s.get("kind", "n-init") != "n-init":
+                        bump(spell, s["kind"][7:])
+                    render_arg(s["arg"], rd, outer, al)
+                elif "ctx" in s:
+                    bump(st.setdefault("control_statements_run", {}), "%s x%d" % (s["ctx"], min(len(s["scopes"]), 3)))
+                    for sc in s["scopes"]:
+                        al2 = dict(al)
+                        al2.update(dict((t, k_) for t, k_ in sc["alias"]))
+                        stmts(sc["body"], s["ctx"], al2)
+                else:
+                    w = where
+                    if "defer" in s:
+                        s = s["defer"]
+                        w = "defer in " + where
+                    bump(inctx, w)
+                    bump(printfl, fl)
+                    if len(s["args"]) == 1 and s["args"][0]["k"] == "Q":
+                        render_arg(s["args"][0], rd, outer, al)
+                    else:
+                        kind = "printf" if any("fparts" in a for a in s["args"]) else "println"
+                        note(kind, rd + 1, outer)
+                        for a in s["args"]:
+                            render_arg(a, rd + 1, kind, al)
 
         for _, c in inst["params"]:
             if "body" in c:
                 walk(c, rd, outer)
-        for s in inst["body"]:
-            if "fail" in s or "ret" in s:
-                break
-            if "eval" in s:
-                visit([s["eval"]], rd, outer)
-            elif "let" in s:
-                render_arg(s["arg"], rd, outer)
-            elif len(s["args"]) == 1 and s["args"][0]["k"] == "Q":
-                render_arg(s["args"][0], rd, outer)
-            else:
-                kind = "printf" if any("fparts" in a for a in s["args"]) else "println"
-                note(kind, rd + 1, outer)
-                for a in s["args"]:
-                    render_arg(a, rd + 1, kind)
+        stmts(inst["body"], "function body", {})
         if inst.get("ret"):
-            render_arg(inst["ret"], rd, outer)
+            render_arg(inst["ret"], rd, outer, {})
 
     walk({"params": [], "locals": [[e[0], e[2]] for e in p["env"] if e[1] == "C"], "body": p["stmts"], "ret": None}, 0, None)
     st["instances"] -= 1
+    byfl["main"] = byfl.get("main", 1) - 1
     m = st["programs_by_max_depth"]
     m[top[0]] = m.get(top[0], 0) + 1
 
 
 # ------------------------------------------------------------------ rendering a description
 def arg_src(a):
-    return '"%s"' % a["text"] if a["k"] == "Q" else a["src"]
+    if a["k"] == "Q":
+        return a["src"] if "src" in a else '"%s"' % a["text"]
+    return a["src"]
 
 
 def stmt_src(s):
@@ -1794,7 +2498,13 @@ def stmt_src(s):
         return "return;"
     if "eval" in s:
         return s["eval"] + ";"
+    if "ctx" in s:
+        return s["src"]
+    if "defer" in s:
+        return "defer " + stmt_src(s["defer"])
     if "let" in s:
+        if "full_src" in s:
+            return s["full_src"]
         return "%s %s = %s;" % (s["type"], s["let"], arg_src(s["arg"]))
     if s.get("bare"):
         return "print %s;" % arg_src(s["args"][0])          # the form without parentheses
@@ -1845,6 +2555,17 @@ def stmt_lines(s, out):
         out.append("X " + hexs(s["eval"]))
     elif "let" in s:
         out.append("T %s %s" % (hexs(s["let"]), arg_tok(s["arg"])))
+    elif "ctx" in s:
+        out.append("O")             # the statement as a whole (the driver reports what a statement of main wrote per outermost scope)
+        for sc in s["scopes"]:
+            out.append("O " + " ".join(hexs(t) + ":" + hexs(k) for t, k in sc["alias"]))
+            for s2 in sc["body"]:
+                stmt_lines(s2, out)
+            out.append("C")
+        out.append("C")
+    elif "defer" in s:
+        d = s["defer"]
+        out.append("D %d %s" % (d["nl"], " ".join(arg_tok(a) for a in d["args"])))
     else:
         out.append("P %d %s" % (s["nl"], " ".join(arg_tok(a) for a in s["args"])))
 
@@ -1937,9 +2658,21 @@ def want_rc(p, only=None):
 
 
 # ------------------------------------------------------------------ running both sides
+def big_stack():
+    """the extracted functions are not tail-recursive (list append over the whole stdout of a program: megabytes in the
+    size-boundaries stream of the thorough tier): run the model with the largest stack the system allows"""
+    import resource
+    soft, hard = resource.getrlimit(resource.RLIMIT_STACK)
+    try:
+        resource.setrlimit(resource.RLIMIT_STACK, (hard, hard))
+    except (ValueError, OSError):
+        pass
+
+
 def run_model_chunk(blocks):
     data = ("\n".join("\n".join(b) for b in blocks) + "\n").encode("ascii")
-    p = subprocess.run([common.model_bin(PROP), "run"], input=data, stdout=subprocess.PIPE, stderr=subprocess.PIPE, timeout=900)
+    p = subprocess.run([common.model_bin(PROP), "run"], input=data, stdout=subprocess.PIPE, stderr=subprocess.PIPE, timeout=900,
+                       preexec_fn=big_stack)
     if p.returncode != 0:
         raise RuntimeError("c16 model failed: " + p.stderr.decode("utf-8", "replace")[-500:])
     res = []
@@ -1977,13 +2710,20 @@ class Runner:
     def close(self):
         shutil.rmtree(self.tmp, ignore_errors=True)
 
-    def run(self, src):
-        """returns (rc, stdout bytes, first stderr line)"""
-        fd, path = tempfile.mkstemp(prefix="p", suffix=".cb", dir=self.tmp)
+    def run(self, src, mod=None):
+        """returns (rc, stdout bytes, first stderr line); mod: text of the imported file mq.cb (imports resolve against
+        the working directory, so such a program runs in a directory of its own)"""
+        cwd, d = self.impl_dir, None
+        if mod is not None:
+            d = tempfile.mkdtemp(prefix="m", dir=self.tmp)
+            cwd = d
+            with open(os.path.join(d, "mq.cb"), "wb") as fh:
+                fh.write(mod.encode("latin-1"))
+        fd, path = tempfile.mkstemp(prefix="p", suffix=".cb", dir=d or self.tmp)
         with os.fdopen(fd, "wb") as fh:
             fh.write(src.encode("latin-1"))
         try:
-            p = subprocess.run([os.path.join(self.impl_dir, "main"), path], cwd=self.impl_dir, timeout=20,
+            p = subprocess.run([os.path.join(self.impl_dir, "main"), path], cwd=cwd, timeout=20,
                                stdout=subprocess.PIPE, stderr=subprocess.PIPE)
             rc, out, err = p.returncode, p.stdout, p.stderr
         except subprocess.TimeoutExpired as e:
@@ -1993,9 +2733,14 @@ class Runner:
                 os.unlink(path)
             except OSError:
                 pass
+            if d:
+                shutil.rmtree(d, ignore_errors=True)
         if rc < 0:
             rc = 128 - rc
         return rc, out, err.decode("utf-8", "replace").split("\n")[0][:200]
+
+    def run_prog(self, p, only=None):
+        return self.run(program_src(p, only), module_src(p))
 
 
 def model_expect(m, p, only=None):
@@ -2044,7 +2789,7 @@ def locate(p, runner):
     idx = [i for i, s in enumerate(p["stmts"]) if "fail" not in s and "ret" not in s]
     progs = [dict(p, stmts=[p["stmts"][j] for j in needed_lets(p, i)] + [p["stmts"][i]], ending="normal") for i in idx]
     ms = run_model([model_lines(q) for q in progs])
-    outs = common.pmap(lambda q: runner.run(program_src(q)), progs)
+    outs = common.pmap(lambda q: runner.run_prog(q), progs)
     bad = []
     for i, q, m, o in zip(idx, progs, ms, outs):
         d = check_program(q, m, o)
@@ -2053,17 +2798,24 @@ def locate(p, runner):
     return bad
 
 
+def decl_name(d):
+    import re
+    m = re.match(r"[^=;]*?(\w+)\s*[=;]", d)
+    return m.group(1) if m else d
+
+
 def shrink_stmt(q, runner):
     """drop declarations and functions that are not referenced while the disagreement persists"""
     used = " ".join(stmt_src(s) for s in q["stmts"])
-    decls = [d for d in q["decls"] if d.split("=")[0].split()[-1] in used]
-    env = [e for e in q["env"] if e[0] in used]
+    decls = [d for d in q["decls"] if decl_name(d) in used]
+    env = [e for e in q["env"] if e[0].split("\x01")[0] in used]
     cand = dict(q, decls=decls, env=env)
     if q.get("top"):
-        cand["top"] = prune_top(q["top"], used)
+        cand["top"] = prune_top(q["top"], used + " " + " ".join(d for d in decls if " func(" in d))
     m, = run_model([model_lines(cand)])
-    o = runner.run(program_src(cand))
-    if check_program(cand, m, o):
+    o = runner.run_prog(cand)
+    d = check_program(cand, m, o)
+    if d and not d.get("what", "").startswith("model has no answer"):
         return cand
     return q
 
@@ -2073,7 +2825,7 @@ def shrink_program(p, runner):
     without a demanded output go first so that the property's own oracle can speak about the result"""
     def fails(q):
         m, = run_model([model_lines(q)])
-        return check_program(q, m, runner.run(program_src(q))) is not None
+        return check_program(q, m, runner.run_prog(q)) is not None
     cur = p
     special = lambda s: "fail" in s or "ret" in s
     cand = dict(p, stmts=[s for s in p["stmts"] if special(s) or s.get("want") is not None])
@@ -2102,7 +2854,7 @@ def report_bad(rep, p, runner, origin):
         # only the whole program fails (ordering / flush / exit status)
         p = shrink_program(p, runner)
         m, = run_model([model_lines(p)])
-        o = runner.run(program_src(p))
+        o = runner.run_prog(p)
         d = check_program(p, m, o) or {"what": "vanished on re-run"}
         wb = want_bytes(p)
         concrete = d.get("what") == "spec" or (wb is not None and (o[1] != wb or (want_rc(p) is not None and o[0] != want_rc(p))))
@@ -2117,7 +2869,7 @@ def report_bad(rep, p, runner, origin):
     for (i, q, m, o, d) in bad[:3]:
         q = shrink_stmt(q, runner)
         m, = run_model([model_lines(q)])
-        o = runner.run(program_src(q))
+        o = runner.run_prog(q)
         d = check_program(q, m, o) or d
         w = want_bytes(q)
         concrete = w is not None and (o[1] != w or o[0] != want_rc(q))
@@ -2209,6 +2961,9 @@ def _run(rep, seed, tier, runner, t0=0):
             progs.append(nested_program(sd, k, tier, 24 if tier == "quick" else 40)); origin.append("nested-rendering")
     for p in nested_malformed(seed, 20 if tier == "quick" else 100):
         progs.append(p); origin.append("malformed-literal")
+    for sd in seeds:
+        for p in position_programs(sd, tier):
+            progs.append(p); origin.append("code-positions")
     fp, n_float = float_programs(seed, tier)
     for p in fp:
         progs.append(p); origin.append("float-grid")
@@ -2221,7 +2976,7 @@ def _run(rep, seed, tier, runner, t0=0):
     tlog(t0, "generated %d programs" % len(progs))
     ms = run_model([model_lines(p) for p in progs])
     tlog(t0, "model")
-    outs = common.pmap(lambda p: runner.run(program_src(p)), progs)
+    outs = common.pmap(lambda p: runner.run_prog(p), progs)
     tlog(t0, "implementation")
 
     hist, n_stmt, distinct, nontriv, kinds = {}, 0, set(), 0, {}
@@ -2281,6 +3036,22 @@ def _run(rep, seed, tier, runner, t0=0):
                              "renderings_by_depth": {str(k_): v_ for k_, v_ in sorted(nstat.get("renderings_by_depth", {}).items())},
                              "inner_in_outer": nstat.get("inner_in_outer", {}),
                              "programs_by_max_depth": {str(k_): v_ for k_, v_ in sorted(nstat.get("programs_by_max_depth", {}).items())}},
+        "code_positions": {"what": "where the executed print statements and interpolated literals of the nested-rendering and code-positions "
+                                   "programs stand: kind of the enclosing function (plain, generic called with explicit / inferred type "
+                                   "arguments = clone_ast_node'd body or not, async + await, default parameters omitted at the call, imported "
+                                   "module, lambda, interface method of a struct / of the generic struct Box<T>), enclosing control-flow statement "
+                                   "(block, if / else, for, while, switch, match arm with a bound value, defer), spelling of an interpolated literal "
+                                   "as an expression (\"..\" + \"..\", parenthesised, declaration + assignment, const, +=, struct member)",
+                           "call_instances_by_callee_kind": nstat.get("instances_by_callee_kind", {}),
+                           "print_statements_by_callee_kind": nstat.get("print_statements_by_callee_kind", {}),
+                           "formatted_segments_by_callee_kind": nstat.get("formatted_segments_by_callee_kind", {}),
+                           "print_statements_by_enclosing_statement": nstat.get("print_statements_by_enclosing_statement", {}),
+                           "control_statements_run": nstat.get("control_statements_run", {}),
+                           "literal_spellings": nstat.get("literal_spellings", {}),
+                           "position_grid": "every rendering form (13 interpolation specs, {{ }} $, printf directives d lld x X o u s c %% with "
+                                            "flags and width, pre-arguments + format literal, escaped literal, print / empty println) in each of "
+                                            "%d positions x %d boundary values, called directly and from inside an interpolated literal: %s"
+                                            % (len(POSITIONS), 3 if tier == "quick" else 24, ", ".join(POSITIONS))},
         "float_grid": "{x:[W].Nf} and {x}: %d (value, sign, precision) triples of %d decimal literals (ties, values just off a tie, carries, "
                       "magnitudes 1e-308..1.8e308) x 2 signs x precisions 0..20 25 30 40 (%s), plus doubles / a float variable / double parameters "
                       "inside the nested-rendering programs" % (n_float, len(FLOAT_LITS), "complete grid" if tier == "thorough" else "a rotating third of the grid"),
@@ -2292,7 +3063,7 @@ def _run(rep, seed, tier, runner, t0=0):
         "disagreements": len(bad),
     })
     # report: single statements first (shrunk), at most a few programs
-    bad.sort(key=lambda b: (b[2].get("what") != "spec", len(b[0]["stmts"])))
+    bad.sort(key=lambda b: (b[2].get("what") != "spec", 1 if b[0].get("nested") else 0, len(b[0]["stmts"])))
     for (p, o, d) in bad[:4]:
         report_bad(rep, p, runner, o)
 
@@ -2306,8 +3077,14 @@ def _run(rep, seed, tier, runner, t0=0):
     rep.assumptions += [
         "the model is tied to output_manager.cpp / evaluator.cpp / the parser by differential testing, not proof",
         "expressions inside {...} and integer arguments are evaluated by the harness (variables, literals, + - * on small ints), not by the model",
-        "floating point, %p, printf precision and the flags + space # are outside the model and never generated",
+        "%f / %p, printf precision and the flags + space # are outside the model and never generated ({x:.Nf} of doubles is modelled: FloatFmt.v)",
         "values of type char/bool/struct/array/pointer are not printed by the generated programs",
+        "control flow is flattened by the harness (it knows the branch taken and the iteration count); the model receives scope tokens "
+        "(COpen / CClose / CDefer of Contexts.v), not conditions",
+        "function kinds (generic, async, lambda, module, default parameters, methods) differ in the generated source only: for the model a call is a call instance",
+        "generated positions avoid defects of other features: async bodies are straight-line and call nothing, lambdas take integers and are not "
+        "called inside another call's arguments, no deferred statement mentions self, T is not inferred from a string literal, "
+        "no ?: / array literal / struct literal / string parameter takes an interpolated literal (known findings)",
     ]
 
 
@@ -2340,7 +3117,7 @@ def replay(path):
         if "desc" in c:
             p = c["desc"]
             m, = run_model([model_lines(p)])
-            o = runner.run(program_src(p))
+            o = runner.run_prog(p)
             print(program_src(p).encode("latin-1").decode("utf-8", "replace"))
             print("impl : rc=%d stdout=%r" % (o[0], o[1]))
             print("model: %s stdout=%r failed=%s" % (m[0], m[1], m[2]))
